@@ -40,7 +40,7 @@ void check_C18(Src &s, Ctx &ctx) {
     if (start_loaded || mode == 1) { Op ld; ld.kind = OP_LOAD; apply_op(st, ld); }
     size_t workers = 1 + (size_t)s.pick(8), batch = 1 + (size_t)s.pick(4);
     std::vector<uint8_t> lat; { int n = 4 + s.pick(12); for (int i = 0; i < n; i++) lat.push_back((uint8_t)s.weighted({5, 3, 2, 1})); }
-    CallLog log(workers + 2);
+    CallLog log(16);   // more slots than any generated number of workers
     int salt = st.salt; const ValueModel vm = st.vm;
     auto model_body = [&](const double *x, size_t k, double *y, size_t thread_id) {
         if (thread_id >= log.inflight.size()) { log.fail("thread id " + std::to_string(thread_id) + " out of range"); return; }
